@@ -263,7 +263,7 @@ func main() {
 		return
 	}
 	r := gen.New(gen.Seed())
-	n := gen.Scale(60, 1500)
+	n := gen.Scale(120, 1500)
 	for i := 0; i < n; i++ {
 		history(e, r, i)
 	}
